@@ -184,6 +184,26 @@ func c16Run(c *vcore.Ctx) *vcore.Violation {
 		killAt = 1 << 20 // never at an announcement: while the helper is blocked with its child held at the gate
 	}
 	c.Logf("scenario=%s program-runs-forever=%v kill at announcement #%d", scenario, long, killAt)
+	// the controller may run below a child subreaper (a service manager, a container runtime shim): its
+	// orphans are then inherited by that process, not by pid 1
+	subreaper := src.Bool(1, 2, "below_subreaper")
+	if subreaper {
+		unix.Prctl(unix.PR_SET_CHILD_SUBREAPER, 1, 0, 0, 0)
+		c.Event("subreaper")
+		defer func() {
+			unix.Prctl(unix.PR_SET_CHILD_SUBREAPER, 0, 0, 0, 0)
+			for i := 0; i < 200; i++ { // collect what was inherited
+				var ws syscall.WaitStatus
+				pid, err := syscall.Wait4(-1, &ws, syscall.WNOHANG, nil)
+				if err == syscall.ECHILD {
+					break
+				}
+				if pid <= 0 {
+					time.Sleep(5 * time.Millisecond)
+				}
+			}
+		}()
+	}
 	self, _ := os.Executable()
 	cmd := exec.Command(self, "-test.run", "^$")
 	ar, aw, _ := os.Pipe() // announcements helper -> simulator
